@@ -66,6 +66,64 @@ pub fn consume_scaled(ctx: &mut Ctx, case: &Case, ps: &Parsers, tag: &str, mut s
         }
         n
     });
+    // per component: grouping through the model's own helpers, and every per-quantity operation of the public API
+    ctx.op(case, &format!("{tag}.model_helpers"), || {
+        let mut n = 0usize;
+        for i in scaled.ingredients.iter().filter(|i| i.relation.is_definition()) {
+            n += i.all_quantities(&scaled.ingredients).count();
+            n += i.group_quantities(&scaled.ingredients, &conv).len();
+        }
+        for c in scaled.cookware.iter().filter(|c| c.relation.is_definition()) {
+            n += c.all_amounts(&scaled.cookware).count();
+            n += c.group_amounts(&scaled.cookware).len();
+        }
+        n
+    });
+    ctx.op(case, &format!("{tag}.quantity_ops"), || {
+        use cooklang::convert::ConvertTo;
+        let mut n = 0usize;
+        let qs: Vec<&cooklang::Quantity> = scaled.ingredients.iter().filter_map(|i| i.quantity.as_ref()).chain(scaled.timers.iter().filter_map(|t| t.quantity.as_ref())).chain(scaled.inline_quantities.iter()).take(12).collect();
+        for (k, q) in qs.iter().enumerate() {
+            let mut a = (*q).clone();
+            let _ = a.fit(&conv);
+            let mut b = (*q).clone();
+            n += b.try_fraction(&conv) as usize;
+            for target in ["kg", "l", "tsp", "°F", "min", "cm", "lb", "no such unit", ""] {
+                let mut c = (*q).clone();
+                n += c.convert(ConvertTo::Unit(cooklang::convert::ConvertUnit::Key(target)), &conv).is_ok() as usize;
+            }
+            let mut d = (*q).clone();
+            let _ = d.convert(ConvertTo::SameSystem, &conv);
+            let _ = q.unit_info(&conv);
+            if let Some(other) = qs.get(k + 1) {
+                let _ = q.compatible_unit(other, &conv);
+                n += q.try_add(other, &conv).is_ok() as usize;
+            }
+            n += format!("{q} {q:?}").len();
+        }
+        n
+    });
+    ctx.op(case, &format!("{tag}.grouped_quantity_ops"), || {
+        let mut g = cooklang::quantity::GroupedQuantity::empty();
+        for q in scaled.ingredients.iter().filter_map(|i| i.quantity.as_ref()) {
+            g.add(q, &conv);
+        }
+        let mut g2 = g.clone();
+        g2.merge(&g, &conv);
+        let _ = g2.fit(&conv);
+        format!("{g2} {}", g2.len()).len() + g2.into_vec().len()
+    });
+    ctx.op(case, &format!("{tag}.add_ingredient"), || {
+        let mut l = IngredientList::new();
+        for i in &scaled.ingredients {
+            if let Some(q) = &i.quantity {
+                let mut g = cooklang::quantity::GroupedQuantity::empty();
+                g.add(q, &conv);
+                l.add_ingredient(i.display_name().into_owned(), &g, &conv);
+            }
+        }
+        l.iter().count()
+    });
     for sys in [System::Metric, System::Imperial] {
         let r = ctx.op(case, &format!("{tag}.convert.{sys}"), || {
             let errs = scaled.convert(sys, &conv);
